@@ -48,6 +48,8 @@ GT = {
     "scaletr": {"objectBoundingBox": "scale(2,.5) translate(.05,.1)", "userSpaceOnUse": "scale(2,.5) translate(3,20)"},
     "rotate": {"objectBoundingBox": "rotate(30)", "userSpaceOnUse": "rotate(30)"},
     "matrix": {"objectBoundingBox": "matrix(.8,.3,-.2,1.1,.04,-.06)", "userSpaceOnUse": "matrix(.8,.3,-.2,1.1,4,-6)"},
+    # the same kind of list in the other number spellings (upper / lower case exponents, no space between the operations)
+    "expo": {"objectBoundingBox": "scale(15E-1,.8e0)translate(1E-1 -.5e-1)", "userSpaceOnUse": "scale(15E-1,.8e0)translate(1E1,-5E0)"},
 }
 SHAPES = {
     "rect": '<rect x="20" y="25" width="50" height="40" fill="url(#g)"{t}/>',
